@@ -142,6 +142,7 @@ class McResult:
         self.unacked = 0          # terminal states the application ran into but the checker did not explore
         self.ended_unlogged = 0   # executions the checker says it completed without a matching record of the application
         self.records_all = None
+        self.env_failure = False  # died of a wall-clock / resource limit of the environment (loaded machine)
         self.join_inconsistent = False   # the traces printed by the checker do not match those of the application
         self.explored = []        # complete executions explored, with the multiplicity the checker reports
 
@@ -215,6 +216,7 @@ class McResult:
         return self.explored
 
 
+_ENV_MARKS = ("failed to connect within the", "Going to die of SIGALRM", "Cannot allocate memory", "Resource temporarily unavailable")
 _ABORT_MARKS = ("xbt_assert", "Assertion", "terminate called", "Segmentation", "Backtrace", "xbt_die", "Fix me", "FixMe",
                 "Please report", "what():")
 
@@ -265,6 +267,9 @@ def run_mc(vm, mc, spec_path, workdir, cfg, max_errors=-1, timeout=120, extra=()
             if any(k in line for k in _ABORT_MARKS):
                 out.aborted = re.sub(r"^\[[^\]]*\] *(\[[^\]]*\] *)?", "", line.strip())[:300]
                 break
+    # simgrid-mc gives a forked application 5 seconds of wall-clock time to connect (CheckerSide.cpp, SIGALRM): on a
+    # loaded machine that limit fires.  It says nothing about the exploration: callers treat it like a watchdog.
+    out.env_failure = any(m in out.log for m in _ENV_MARKS)
     out.ack()
     return out
 
@@ -491,7 +496,10 @@ class Runner:
         """Watchdog discipline: a first timeout is retried once with three times the budget.
         Returns (result, hang) where hang is True only when both runs were killed by the watchdog."""
         r = self.run(cfg, timeout, max_errors, extra, mutate)
-        if not r.timed_out:
+        if not r.timed_out and not r.env_failure:
             return r, False
         r2 = self.run(cfg, 3 * timeout, max_errors, extra, mutate)
-        return r2, r2.timed_out
+        if r2.env_failure:                 # the machine is too loaded for simgrid-mc's own 5 s limits: inconclusive
+            r2.timed_out = True
+            return r2, False
+        return r2, r2.timed_out and r.timed_out
